@@ -479,6 +479,9 @@ def hwiresOfHRef (d : Design) (rec : Bool) (sel : Sel) (h : HRef) : List HRef ×
 def hcablesOfHRef (d : Design) (rec : Bool) (sel : Sel) (h : HRef) : List HRef × Bool :=
   match resolve d h with
   | some (.inst i) => ((under d rec h i).flatMap (cablesAt d), true)
+  | some (.cable _) =>
+    -- repaired code: INSIDE on a cable is the cable itself (also when it has no wire)
+    if sel = .inside then ([h], true) else let r := hwiresOfHRef d rec sel h; (r.1.map List.tail, r.2)
   | _ => let r := hwiresOfHRef d rec sel h; (r.1.map List.tail, r.2)
 
 def hpinsOfHRef (d : Design) (rec : Bool) (h : HRef) : List HRef :=
